@@ -160,6 +160,12 @@ func decodeStruct(p Paragraph, into reflect.Value) error {
 		field := into.Field(i)
 		fieldType := into.Type().Field(i)
 
+		if fieldType.PkgPath != "" && !fieldType.Anonymous {
+			/* An unexported field is none of the document's business (and
+			 * can't be set through reflection). */
+			continue
+		}
+
 		/* First, let's get the name of the field as we'd index into the
 		 * map[string]string. */
 		paragraphKey := fieldType.Name
